@@ -67,9 +67,13 @@ def pipeflow(net, sol_vec=None, **kwargs):
     init_all_result_tables(net)
 
     create_lookups(net)
-    initialize_pit(net)
+    try:
+        initialize_pit(net)
+    finally:
+        # the results of an earlier calculation are gone, and so is its verdict (which the initialisation of a
+        # transient time step still looks at) - also if the initialisation refuses the call
+        net.converged = False
 
-    net.converged = False
     calculation_mode = get_net_option(net, "mode")
     calculate_hydraulics = calculation_mode in ["hydraulics", 'sequential']
     calculate_heat = calculation_mode in ["heat", 'sequential']
